@@ -33,7 +33,7 @@ def real_prior():
         import astropy.units as u
         from thejoker.prior import JokerPrior
 
-        _PRIOR = JokerPrior.default(P_min=1 * u.day, P_max=100 * u.day, sigma_K0=30 * u.km / u.s, sigma_v=100 * u.km / u.s)
+        _PRIOR = JokerPrior.default(P_min=1 * u.day, P_max=100 * u.day, sigma_K0=300 * u.km / u.s, sigma_v=100 * u.km / u.s)  # wide: the max_K clip of the K prior is active for the short library periods
     return _PRIOR
 
 
